@@ -211,7 +211,9 @@ Definition check_live (n : Z) (obs : list sx) : verdict :=
 
 (* worker parked on its output: ((impl variant 0 ()) (parked cancelResult cancelReturned pAfter
    others expected size)), impl 4 = wheel, 5 = heap; variant 0: the timer P that does not fit
-   into Chan() is a repeating one, 1: a one-shot one.  The tick waits inside tick /
+   into Chan() is a repeating one (2: the same with P in the middle of the heap's order),
+   1: a one-shot one, 3: only repeating timers on the live worker and Shutdown() instead of
+   Cancel (cancelReturned = Shutdown came back).  The tick waits inside tick /
    expireNear with Chan() full (established from the goroutine dump), Cancel(P) is called,
    then Chan() is drained.  A repeating P is still scheduled, so its Cancel returns true —
    and then no runnable of P may arrive any more; a one-shot P left the map when the worker
@@ -223,7 +225,7 @@ Definition check_parked (variant : Z) (obs : list sx) : verdict :=
       if negb (parked =? 1) then VBad else
       vjoin (check_that (cret =? 1) (VPropFail 7))
      (vjoin (check_that (negb ((cres =? 1) && (0 <? pafter))) (VPropFail 2))
-     (vjoin (check_that (if variant =? 0 then cres =? 1 else (cres + pafter =? 1)) (VPropFail 5))
+     (vjoin (check_that (if variant =? 1 then (cres + pafter =? 1) else cres =? 1) (VPropFail 5))
      (vjoin (check_that (others =? expected) (VPropFail 1))
             (check_that (size =? 0) (VPropFail 4)))))
   | _ => VBad
